@@ -96,6 +96,19 @@ func regionOrFull(pa Path, t *Term) IntervalSet {
 	return fullSet(t.Typ)
 }
 
+var kindsSpecMemo *KindsSpec
+
+func kindsSpec() *KindsSpec {
+	if kindsSpecMemo == nil {
+		ks := &KindsSpec{}
+		if err := loadJSON("/verif/spec/kinds.json", ks); err != nil {
+			panic("kinds.json: " + err.Error())
+		}
+		kindsSpecMemo = ks
+	}
+	return kindsSpecMemo
+}
+
 func RuleK10(r *Report, p *Program) {
 	RuleK10Only(r, p, map[string]bool{"K10": true, "K10a": true, "K10b": true})
 }
@@ -282,6 +295,18 @@ func ruleK10All(r *Report, p *Program) {
 						isZero := len(m) == 1 && m["r"] != nil && (m["r"].Name == "zero" || m["r"].Name == "nil")
 						if !(isZero || errNilness(pa, pa.Results[1]) == 0) {
 							badB = "a calendar-invalid value yields " + cut(pa.Results[0].String(), 60)
+						}
+						// the zero value is an answer only for encodings that have a 'no value' in the protocol (kinds.json:
+						// the dates); for the others (system time, system date) zero is an ordinary value (00:00:00)
+						if isZero && errNilness(pa, pa.Results[1]) != 0 {
+							if q := strings.Index(k, "\""); q >= 0 {
+								if e := strings.Index(k[q+1:], "\""); e >= 0 {
+									layout := k[q+1 : q+1+e]
+									if sp, known := kindsSpec().Signatures["bcd:"+layout]; known && !sp.NoValue {
+										badB = "a calendar-invalid " + layout + " field decodes to the zero value without an error: for this encoding zero is an ordinary value (00:00:00), so an impossible value is reported as a valid one"
+									}
+								}
+							}
 						}
 					}
 				}
@@ -620,6 +645,101 @@ func RuleJSON(r *Report, p *Program) {
 	ruleWeekdays(r, p)
 	ruleNilMaps(r, p)
 	ruleMapReceivers(r, p)
+	ruleCalendarDelegation(r, p)
+}
+
+// J9: calendar validation is delegated to package time. A parser of dates (text, JSON or BCD digits) hands the
+// date constructor -- any function taking (year int, month time.Month, day int), time.Date included -- only the
+// Year/Month/Day of an instant that time.Parse / ParseInLocation returned on this path: a hand-rolled month-length
+// or leap-year rule in front of it (a "fast path") would accept dates the calendar does not have.
+func ruleCalendarDelegation(r *Report, p *Program) {
+	r.Rule("J9", "a parser of dates builds the date only from the year, month and day of an instant that package time parsed (no hand-rolled calendar arithmetic decides which dates exist)", 3)
+	tp := p.SSAPkg("types")
+	isCtor := func(f *ssa.Function) bool {
+		if f == nil {
+			return false
+		}
+		ps := f.Signature.Params()
+		if ps.Len() < 3 {
+			return false
+		}
+		return isIntType(ps.At(0).Type()) && typeName(ps.At(1).Type()) == "time.Month" && isIntType(ps.At(2).Type())
+	}
+	for _, fn := range p.AllFuncs {
+		if fn.Pkg != tp || fn.Parent() != nil || fn.Object() == nil || (!fn.Object().Exported() && fn.Signature.Recv() == nil) {
+			continue
+		}
+		takesText := false
+		for _, prm := range fn.Params {
+			if isStringType(prm.Type()) || isByteSlice(prm.Type()) {
+				takesText = true
+			}
+		}
+		if !takesText || isCtor(fn) {
+			continue
+		}
+		if !reachesInstr(fn, tp, func(in ssa.Instruction) bool {
+			c, ok := in.(ssa.CallInstruction)
+			return ok && isCtor(c.Common().StaticCallee())
+		}, map[*ssa.Function]bool{}) {
+			continue
+		}
+		w := NewWalker(p)
+		w.LoopFuel = 12
+		// exported parsers that return the same kind of value are walked in line (UnmarshalJSON delegating to
+		// ParseDate); the constructor itself stays an event
+		w.Inline = inlineHelpers([]*ssa.Package{tp}, func(f *ssa.Function) bool {
+			if isCtor(f) {
+				return true
+			}
+			if f.Object() != nil && f.Object().Exported() {
+				for _, prm := range f.Params {
+					if isStringType(prm.Type()) {
+						return false
+					}
+				}
+				return true
+			}
+			return false
+		})
+		args := make([]*Term, len(fn.Params))
+		for i, prm := range fn.Params {
+			args[i] = &Term{Op: "param", Name: prm.Name(), Typ: prm.Type()}
+		}
+		bad := ""
+		n := 0
+		for _, pa := range w.Walk(fn, args, nil) {
+			for _, e := range pa.Events {
+				if e.Kind != "call" || len(e.Args) < 3 {
+					continue
+				}
+				ce, ok := e.Instr.(ssa.CallInstruction)
+				if !ok || !isCtor(ce.Common().StaticCallee()) {
+					continue
+				}
+				n++
+				want := []string{".Year(", ".Month(", ".Day("}
+				for i := 0; i < 3; i++ {
+					a := e.Args[i]
+					for a != nil && a.Op == "conv" && len(a.Args) == 1 {
+						a = a.Args[0]
+					}
+					as := a.String()
+					parsed := strings.Contains(as, "time.Parse(") || strings.Contains(as, "time.ParseInLocation(")
+					// t.Date() returns (year, month, day): component i of it is the same selector
+					if a.Op == "extract" && a.Name == fmt.Sprint(i) && len(a.Args) == 1 && a.Args[0].Op == "call" && a.Args[0].Name == "(time.Time).Date" && parsed {
+						continue
+					}
+					if !(a.Op == "call" && strings.HasPrefix(as, "(time.Time)"+want[i]) && parsed) {
+						bad = fmt.Sprintf("the %s handed to %s at %s is %s, not the %s of an instant parsed by package time", []string{"year", "month", "day"}[i], e.Name, p.Pos(e.Pos), cut(as, 60), want[i][1:len(want[i])-1])
+					}
+				}
+			}
+		}
+		if n > 0 {
+			r.Check(bad == "", "J9", calleeName(fn), p.Pos(fn.Pos()), fmt.Sprintf("%d constructor calls", n), bad)
+		}
+	}
 }
 
 func lookupNamed(p *Program, rel, name string) *types.Named {
